@@ -1103,6 +1103,21 @@ class Effects:
         return [here]
 
 
+def _leaf_site(self, qual: str, e, depth=0):
+    """(function qualname, node) of the direct site of effect e, following the same chain as explain()."""
+    s = self.sum[qual]
+    fq, node = s.sites.get(e, (qual, None))
+    via = s.via.get(e, "")
+    if via and depth < 8:
+        for ce in self.sum[via].effects:
+            if ce[1] in (e[1], "NS") and ce[2] == e[2]:
+                return _leaf_site(self, via, ce, depth + 1)
+    return fq, node
+
+
+Effects.leaf_site = _leaf_site
+
+
 def get_effects(ctx: Ctx) -> Effects:
     if "effects" not in ctx._cache:
         ctx._cache["effects"] = Effects(ctx)
